@@ -9,9 +9,15 @@ CONSTANTS DevChain,     \* TRUE = bookmark targets rewritten pair by pair (C10:b
 \* deviations present at HEAD (known findings): TRUE = the code as it is, FALSE = as the proposed fixes repair it
           DevDup,       \* TRUE = a page listed twice takes part in the page-order pass twice (C10:pageorder.dupkids)
           DevClash,     \* TRUE = pages re-keyed to <<number of slot, own generation>> (C10:pageorder.numclash)
-          DevBmDang     \* TRUE = a bookmark target naming no object is left alone (C10:bookmark.dangling.capture)
+          DevBmDang,    \* TRUE = a bookmark target naming no object is left alone (C10:bookmark.dangling.capture)
+          DevReach,     \* TRUE = references are rewritten only in what the trailer reaches (C10:bookmark.target.unreachable)
+          DevZero,      \* TRUE = renumbering from 0 is not noticed: (0,_) sentinels can be captured (C10:start0.capture)
+          DevFit,       \* "panic" / "wrap" = the counter is advanced past the last object (C10:panic.exactfit,
+                        \*   C10:max_id.exactfit); "none" = the last number handed out is remembered
+          Limit         \* the largest object number (stand-in for u32::MAX; 0 = out of sight)
 
-DevRec == Dev(DevChain, DevDang, DevDup, DevClash, DevBmDang)
+DevRec == [Dev(DevChain, DevDang, DevDup, DevClash, DevBmDang)
+             EXCEPT !.reach = DevReach, !.zero = DevZero, !.fit = DevFit, !.limit = Limit]
 
 VARIABLES before,   \* the document the call started from (with its declarative page sequence)
           start,    \* starting_id
@@ -43,7 +49,7 @@ PagePair ==
 \* remap_bookmarks(&replace); re-insert; traverse_objects(action); replace.clear()
 PageFinish ==
     /\ pc = "ppair" /\ i > Len(pg)
-    /\ s' = FinishPass(s, live, DevChain, DevDang, DevBmDang)
+    /\ s' = FinishPass(s, live, DevChain, DevDang, DevBmDang, PageOpt(DevRec))
     /\ pc' = "dplan"
     /\ UNCHANGED <<before, start, i, pg, srt, ord, live>>
 
@@ -67,7 +73,7 @@ DensePair ==
 \* remap_bookmarks(&replace); re-insert; traverse_objects(action); self.max_id = new_id.saturating_sub(1)
 DenseFinish ==
     /\ pc = "dpair" /\ i > Len(ord)
-    /\ s' = SetMaxId(FinishPass(s, live, DevChain, DevDang, DevBmDang), start, Cardinality(live))
+    /\ s' = SetMaxId(FinishPass(s, live, DevChain, DevDang, DevBmDang, DenseOpt(DevRec, start, live)), start, Cardinality(live), DevRec)
     /\ pc' = "done"
     /\ UNCHANGED <<before, start, i, pg, srt, ord, live>>
 
